@@ -364,6 +364,14 @@ impl Router {
         }
 
         let connection_id = self.connections.insert(connection);
+        // A resumed session brings its subscriptions along: register them under the new
+        // connection id, else a later UNSUBSCRIBE finds nothing to remove
+        for filter in self.connections[connection_id].subscriptions.iter() {
+            self.subscription_map
+                .entry(filter.clone())
+                .or_default()
+                .insert(connection_id);
+        }
         assert_eq!(self.ibufs.insert(incoming), connection_id);
         assert_eq!(self.obufs.insert(outgoing), connection_id);
 
